@@ -96,8 +96,9 @@ def _pass_through(ctx, P):
             i = ops.index("REATTACH")
             if v.eff[i][1] is not o.env.get("self") or v.eff[i][2] != Sym("USER_KEEP"):
                 bad = "cumsum re-attaches coordinates from another grid / ignores keep_coords"
-            if ops[i + 1:]:
-                bad = bad or f"operations {ops[i + 1:]} follow the re-attachment"
+            after = [op for op in ops[i + 1:] if op not in ("transpose", "copy", "astype", "chunk", "squeeze")]  # these do not touch coordinates
+            if after:
+                bad = bad or f"operations {after} follow the re-attachment"
             inst = f"{name}: no stale coordinate reaches the re-attachment"
             try:
                 stale = _stale_before_reattach(v, i, dimsym("AX", fr), dimsym("AX", to))
